@@ -66,9 +66,9 @@ func BytesSym(name string, max int) []byte {
 
 func Str(name string, n int) string { return string(Bytes(name, n)) }
 
-// MapI64Bool: arbitrary map; natively reconstructed from model entries "<name>.present[k]" (not generally
-// replayable: the solver's array model is not exported), so native replays start from an empty map.
-func MapI64Bool(name string) map[int64]bool { return map[int64]bool{} }
+
+
+
 func MapHas(m map[int64]bool, k int64) bool { _, ok := m[k]; return ok }
 
 func Assume(c bool) {
@@ -313,3 +313,16 @@ func Shares(a, b any) bool {
 func FootprintBegin()          {}
 func FootprintEnd(label string) {}
 func Owned(x any)              {}
+
+func I8(name string) int8   { return int8(get(name)) }
+func I16(name string) int16 { return int16(get(name)) }
+func I32(name string) int32 { return int32(get(name)) }
+
+// Choose returns a value in lo..hi; the symbolic executor explores every value as a separate path.
+func Choose(name string, lo, hi int) int {
+	v := int(int64(get(name)))
+	if v < lo || v > hi {
+		panic(AssumeFailed{})
+	}
+	return v
+}
